@@ -91,6 +91,46 @@ pub struct Verdict {
 }
 
 /// Read `v` (of W) with R through the three routes and judge against the reference.
+/// Does `got` sit, somewhere, in a reader-union branch that the writer's schema at that position
+/// does not match under the specification's "schemas match" relation?
+fn branch_picked_by_value(w: &SNode, r: &SNode, wv: &V, got: &V, cx: &refresolve::Ctx, depth: usize) -> bool {
+    if depth > 24 {
+        return false;
+    }
+    let w = deref(w, cx.wenv);
+    let r = deref(r, cx.renv);
+    if let (SType::Union(wbs), V::Union(j, inner)) = (&w.ty, wv) {
+        return match wbs.get(*j) {
+            Some(wb) => branch_picked_by_value(wb, r, inner, got, cx, depth + 1),
+            None => false,
+        };
+    }
+    if let SType::Union(rbs) = &r.ty {
+        let V::Union(i, ginner) = got else {
+            return false;
+        };
+        let Some(rb) = rbs.get(*i) else {
+            return false;
+        };
+        if !refresolve::matches(w, rb, cx, 0) {
+            return true;
+        }
+        return branch_picked_by_value(w, rb, wv, ginner, cx, depth + 1);
+    }
+    match (&w.ty, &r.ty, wv, got) {
+        (SType::Array(wi), SType::Array(ri), V::Array(a), V::Array(g)) => a.iter().zip(g).any(|(x, y)| branch_picked_by_value(wi, ri, x, y, cx, depth + 1)),
+        (SType::Map(wi), SType::Map(ri), V::Map(a), V::Map(g)) => a.iter().any(|(k, x)| g.iter().find(|(k2, _)| k2 == k).map_or(false, |(_, y)| branch_picked_by_value(wi, ri, x, y, cx, depth + 1))),
+        (SType::Record(_, wf), SType::Record(_, rf), V::Record(a), V::Record(g)) => rf.iter().zip(g).any(|(rfield, y)| {
+            let pos = wf.iter().position(|f| f.name == rfield.name || rfield.aliases.iter().any(|al| *al == f.name));
+            match pos.and_then(|i| a.get(i).map(|x| (&wf[i], x))) {
+                Some((wfield, x)) => branch_picked_by_value(&wfield.node, &rfield.node, x, y, cx, depth + 1),
+                None => false,
+            }
+        }),
+        _ => false,
+    }
+}
+
 pub fn judge(p: &Pair, v: &V) -> Result<&'static str, Verdict> {
     let lv = to_lib(&p.w.node, v, &p.w.env);
     let bytes = refbin::encode_canonical(&p.w.node, v, &p.w.env);
@@ -166,6 +206,15 @@ pub fn judge(p: &Pair, v: &V) -> Result<&'static str, Verdict> {
                     if !has_val {
                         return Err(Verdict { key: "lenient".into(), msg: format!("the rules give no result but a value was returned: {}", short(x)) });
                     }
+                    // Fixed(n, n bytes) with n different from the schema's size can only come from
+                    // Value::resolve_fixed(String), the one conversion to fixed without a length check
+                    let string_to_fixed = m.strip_prefix("fixed length ").and_then(|r| r.split_once(" for size ")).map_or(false, |(ab, size)| match ab.split_once('/') {
+                        Some((a, b)) => a == b && a != size,
+                        None => false,
+                    });
+                    if string_to_fixed {
+                        return Err(Verdict { key: "string-resolved-to-fixed-of-another-length".into(), msg: format!("a string was resolved to a fixed of the reader schema without a length check: {m}; result {}", short(x)) });
+                    }
                     return Err(Verdict { key: "result-not-conforming-to-reader".into(), msg: format!("{m}") });
                 }
             };
@@ -173,6 +222,12 @@ pub fn judge(p: &Pair, v: &V) -> Result<&'static str, Verdict> {
                 return Err(Verdict { key: "lenient".into(), msg: format!("the resolution rules give no result (error) but {} was returned", got.to_js().render()) });
             }
             if !alts.iter().any(|a| matches!(a, Alt::Val(e) if e.sem_eq(&got))) {
+                // the known leniency also shows where the rules do give a result: the branch of a
+                // reader union is picked by converting the value, not by matching the schemas
+                let cx2 = refresolve::Ctx { wenv: &p.w.env, renv: &p.r.env, truncated: false };
+                if branch_picked_by_value(&p.w.node, &p.r.node, v, &got, &cx2, 0) {
+                    return Err(Verdict { key: "lenient".into(), msg: format!("a reader union branch whose schema does not match the writer's schema was chosen because the value converts: read {}", got.to_js().render()) });
+                }
                 let want = alts.iter().find_map(|a| if let Alt::Val(e) = a { Some(e.to_js().render()) } else { None }).unwrap_or_default();
                 return Err(Verdict { key: "wrong-value".into(), msg: format!("read {} but the rules prescribe {}", got.to_js().render(), want) });
             }
